@@ -247,6 +247,40 @@ def lookalikes(case):
     return {"ok": not fails, "failures": fails, "outcome": "ok" if not fails else "mismatch", "nontrivial": True, "n": n}
 
 
+ATT_SEQS = ((365, 1, 2), (366, 1, 2), (364, 365, 366), (1, 365, 1), (2, 1, 365), (60, 59, 61), (1, 1, 1), (365, 365, 1), (10, 200, 30))
+
+
+def attitude_days(case):
+    """attitude points carry (day of year, ms of day) each on its own: sequences that run over the end of the year, backwards,
+    or repeat must decode point by point (year = the first point's), whatever the neighbouring points hold"""
+    fy = case["year"]
+    fails = []
+    for seq in ATT_SEQS:
+        spec = treecheck.spec_from_case({"spec": {"level": "1.5", "images": [["HH", None, 1, 1]], "leader": {"n_att": len(seq), "n_chan": 1}}})
+        spec = synth.with_dev(spec, "led", "platform_position", "datetime_of_first_point.date", f"{fy:04d}  07  01".encode())
+        spec = synth.with_dev(spec, "led", "platform_position", "datetime_of_first_point.seconds_of_day", "12.5")
+        for k, d in enumerate(seq):
+            spec = synth.with_dev(spec, "led", f"attitude_point[{k}]", "time.day_of_year", d)
+            spec = synth.with_dev(spec, "led", f"attitude_point[{k}]", "time.millisecond_of_day", 1000 * (k + 1) + 7)
+        files, _ = synth.build(spec)
+        with harness.Product(files, "mcfs") as prod:
+            try:
+                tree = prod.open()
+                got = {g: [int(v) for v in np.asarray(tree[f"metadata/attitude/{g}"]["time"].values).astype("datetime64[ns]").astype("int64")] for g in ("attitude", "rates")}
+            except Exception as e:
+                fails.append({"sig": {"kind": "attitude-days-raises", "exc": type(e).__name__}, "detail": f"first point {fy}, attitude days {seq}: {type(e).__name__}: {str(e)[:100]}", "case": {**case, "fn": "attitude_days"}})
+                continue
+        for g, vals in got.items():
+            for k, d in enumerate(seq):
+                want = ns_of(dt.datetime(fy, 1, 1) + dt.timedelta(days=d - 1, milliseconds=1000 * (k + 1) + 7))
+                if k >= len(vals) or vals[k] != want:
+                    delta = (vals[k] - want) if k < len(vals) else None
+                    sig = {"leaf": "/metadata/attitude/*:time[*]", "delta_ns": delta}
+                    if core.jkey(sig) not in {core.jkey(f["sig"]) for f in fails}:
+                        fails.append({"sig": sig, "detail": f"first point {fy}, attitude days {seq}: point {k} of {g} is off by {delta} ns", "case": {**case, "fn": "attitude_days"}})
+    return {"ok": not fails, "failures": fails, "outcome": "ok" if not fails else "mismatch", "nontrivial": True, "n": len(ATT_SEQS)}
+
+
 def tz_sweep(case):
     """the same instants under local time zones with daylight saving (nothing in the files is local time)"""
     import datetime as _dt
@@ -315,7 +349,7 @@ def run(res, tier, seed):
         "instants = (every day [thorough] | days 1,2,59,60,61,365,366 [quick]) of every year 2014..2049 x times 00:00:00.000,"
         " 12:34:56.789, 23:59:59.999 (+0/1/999 us for the us-of-day stamp) x levels 1.5 and 1.1; each instant is written into all"
         " time fields of one product at once; every time leaf is compared with the instant (and the whole tree with the"
-        " reference model); plus 16 times of day at every order of magnitude of the ms/us counters (1 ms .. 86 399 998 ms) on 4 days; plus 12 instants whose compact text looks like a leap second / boundary at another alignment; plus each time-bearing field alone holding an instant of the neighbouring year; plus 5 instants on 4 days read back through the index cache; plus hours 0-3 of eight daylight-saving switch-over days under four local time zones; plus 12 decimal-second texts of the" " platform-position first point up to 86399.9999996 s on 4 dates (1 us tolerance) and on 96 dates written blank-padded ('2016   1  16'); plus images of 1025/1100/2049 lines (all per-line leaves compared) so that bulk code paths above the default"
+        " reference model); plus 16 times of day at every order of magnitude of the ms/us counters (1 ms .. 86 399 998 ms) on 4 days; plus 12 instants whose compact text looks like a leap second / boundary at another alignment; plus 9 sequences of attitude days (over the end of the year, backwards, repeated) under common and leap reference years; plus each time-bearing field alone holding an instant of the neighbouring year; plus 5 instants on 4 days read back through the index cache; plus hours 0-3 of eight daylight-saving switch-over days under four local time zones; plus 12 decimal-second texts of the" " platform-position first point up to 86399.9999996 s on 4 dates (1 us tolerance) and on 96 dates written blank-padded ('2016   1  16'); plus images of 1025/1100/2049 lines (all per-line leaves compared) so that bulk code paths above the default"
         " 1024-line chunk are exercised. A case is a batch of 6 days; all distinct, all non-trivial."
     )
     res.assumptions = ["day-of-year 1 = 1 January as the property states; leap seconds are not modelled"]
@@ -328,6 +362,9 @@ def run(res, tier, seed):
         n += out["n"]
     for idx, case, out in core.pool_map(__name__, "lookalikes", [{"day": list(d)} for d in ((2020, 65), (2016, 366), (2023, 235))], chunksize=1):
         res.record({**case, "fn": "lookalikes"}, out, order=7 * 10**6 + idx)
+        n += out["n"]
+    for idx, case, out in core.pool_map(__name__, "attitude_days", [{"year": y} for y in (2019, 2020, 2049)], chunksize=1):
+        res.record({**case, "fn": "attitude_days"}, out, order=8 * 10**6 + idx)
         n += out["n"]
     for idx, case, out in core.pool_map(__name__, "independent", [{}], chunksize=1):
         res.record({"fn": "independent"}, out, order=5 * 10**6 + idx)
